@@ -103,7 +103,7 @@ class Parser_parse:
         return is_canonical_code(err) and res is None
 
 
-@contract('hotxlfp.tinyemitter:Emitter.emit', props=['C10', 'C20'], host_effect=True)
+@contract('hotxlfp.tinyemitter:Emitter.emit', props=['C10'], host_effect=True, for_callers=True)
 class Emitter_emit_effect:
     # as seen by callers in hotxlfp/parser.py: listeners are host code; closures passed as arguments escape to them
     no_native = True
